@@ -25,6 +25,11 @@ M = [
  ("S28", "mempool/src/quorum_waiter.rs", "                    let mut total_stake = self.stake;", "                    let mut total_stake = self.stake + 1;", ["C12"]),
  ("S29", "consensus/src/config.rs", "        2 * total_votes / 3 + 1", "        (2 * total_votes + 2) / 3", ["C17"]),
  ("S30", "consensus/src/leader.rs", None, None, []),
+ ("S31", "mempool/src/synchronizer.rs", "                    for (digest, (_, _, timestamp)) in &self.pending {\n                        if timestamp + (self.sync_retry_delay as u128) < now {\n                            debug!(\"Requesting sync for batch {} (retry)\", digest);\n                            retry.push(digest.clone());\n                        }\n                    }", "                    for (digest, (_, _, timestamp)) in self.pending.iter_mut() {\n                        if *timestamp + (self.sync_retry_delay as u128) < now {\n                            debug!(\"Requesting sync for batch {} (retry)\", digest);\n                            retry.push(digest.clone());\n                        }\n                        *timestamp = now;\n                    }", ["C13"]),
+ ("S32", "mempool/src/processor.rs", "                store.write(digest.to_vec(), batch).await;\n\n                tx_digest.send(digest).await.expect(\"Failed to send digest\");", "                tx_digest.send(digest.clone()).await.expect(\"Failed to send digest\");\n\n                store.write(digest.to_vec(), batch).await;", ["C11", "C13", "C08"]),
+ ("S33", "consensus/src/proposer.rs", "                        for x in &digests {\n                            self.buffer.remove(x);\n                        }", "                        let _ = &digests;\n                        self.buffer.clear();", ["C13"]),
+ ("S34", "consensus/src/core.rs", "        self.store_block(block).await;\n\n        self.cleanup_proposer(&b0, &b1, block).await;", "        self.cleanup_proposer(&b0, &b1, block).await;", ["C07", "C02", "C05"]),
+ ("S35", "store/src/lib.rs", None, None, []),
 ]
 def sh(cmd, **kw):
     return subprocess.run(cmd, shell=True, capture_output=True, text=True, **kw)
